@@ -207,7 +207,7 @@ fn api_rec(o: &mut Vec<u8>, idx: u64, slot: u8, op: u8, pl_data: u8, pl_out: u8,
     w32(o, mask);
 }
 
-fn api_history(o: &mut Vec<u8>, idx: u64, rng: &mut Rng, tbb: bool, no_avx512: bool, disagreements: &mut Vec<String>) {
+fn api_history(o: &mut Vec<u8>, idx: u64, rng: &mut Rng, tbb: bool, no_avx512: bool, first_big: bool, disagreements: &mut Vec<String>) {
     let mask = if no_avx512 { *rng.pick(&MASKS[..4]) } else { *rng.pick(&MASKS) };
     let mut slots: Vec<Option<SlotModel>> = (0..4).map(|_| None).collect();
     let nops = 3 + rng.usize_below(12);
@@ -254,7 +254,15 @@ fn api_history(o: &mut Vec<u8>, idx: u64, rng: &mut Rng, tbb: bool, no_avx512: b
                 let slot = *rng.pick(&live);
                 let s = slots[slot].as_mut().unwrap();
                 let room = budget.saturating_sub(s.m.bytes.len());
-                let n = if rng.chance(1, 6) { (1024usize << rng.usize_below(12)).min(room) } else { gen::hostile_len(rng, room) };
+                let n = if first_big && s.m.bytes.is_empty() {
+                    // the first update of a history is a single large one (>= 5 chunks), so that a
+                    // first call racing with feature detection spans several recursion levels
+                    (5 * 1024 + rng.usize_below(60 * 1024)).min(room)
+                } else if rng.chance(1, 6) {
+                    (1024usize << rng.usize_below(12)).min(room)
+                } else {
+                    gen::hostile_len(rng, room)
+                };
                 let dseed = rng.u64();
                 let klass = if rng.chance(1, 5) { 1 + rng.below(3) as u8 } else { 0 };
                 let pl = if n == 0 && rng.chance(1, 2) { 255 } else { placement(rng) };
@@ -326,6 +334,7 @@ pub fn run(args: &Args) {
     let only_class = args.get("class").map(|s| s.to_string());
     let total = if what == "kernels" { args.n(600_000, 12_000_000) } else { args.n(4000, 150_000) };
     let no_avx512 = args.get("no-avx512") == Some("1");
+    let first_big = args.get("first-big") == Some("1");
     let cls = classes(&variant, no_avx512);
     let stdout = std::io::stdout();
     let mut out = stdout.lock();
@@ -350,7 +359,7 @@ pub fn run(args: &Args) {
             }
             kernel_record(&mut buf, idx, c, idx / cls.len() as u64, &mut rng);
         } else {
-            api_history(&mut buf, idx, &mut rng, tbb, no_avx512, &mut disagreements);
+            api_history(&mut buf, idx, &mut rng, tbb, no_avx512, first_big, &mut disagreements);
         }
         if buf.len() > (1 << 20) {
             out.write_all(&buf).expect("write script");
